@@ -41,7 +41,7 @@ void *memcpy_model(void *dstv, const void *srcv, unsigned long n)
 
 EE_CONTRACT = [
     ('requires', 'C03.tok.pre.size', 'sz <= SZMAX'),
-    ('requires', 'C03.tok.pre.from', '__CPROVER_is_fresh(from, sz == 0 ? 1 : sz)'),
+    ('requires', 'C03.tok.pre.from', 'sz == 0 || __CPROVER_is_fresh(from, sz)'),
     ('requires', 'C03.tok.pre.tag_capacity', '__CPROVER_is_fresh(tag, (unsigned long)sz + 1)'),
     ('requires', 'C03.tok.pre.val_capacity', '__CPROVER_is_fresh(val, (unsigned long)sz + 1)'),
     ('assigns', None, '__CPROVER_object_whole(tag), __CPROVER_object_whole(val)'),
@@ -60,7 +60,7 @@ EE_GHOST = {'entry': '  char *tag0 = tag, *val0 = val; /* ghost: start of the ou
 
 FW_CONTRACT = [
     ('requires', 'C06.fw.pre.size', 'sz <= SZMAX && val_sz <= SZMAX'),
-    ('requires', 'C06.fw.pre.from', '__CPROVER_is_fresh(from, sz == 0 ? 1 : sz)'),
+    ('requires', 'C06.fw.pre.from', 'sz == 0 || __CPROVER_is_fresh(from, sz)'),
     ('requires', 'C06.fw.pre.tag_capacity', '__CPROVER_is_fresh(tag, (unsigned long)sz + 1)'),
     ('requires', 'C06.fw.pre.val_capacity', '__CPROVER_is_fresh(val, (unsigned long)val_sz + 1)'),
     ('assigns', None, '__CPROVER_object_whole(tag), __CPROVER_object_whole(val), g_taglen'),
@@ -68,7 +68,7 @@ FW_CONTRACT = [
     ('ensures', 'C06.fw.data_inside_input', '__CPROVER_return_value == 0 || g_taglen + 1 + (unsigned long)val_sz <= sz'),
     ('ensures', 'C06.fw.data_bytes_unchanged_whatever_they_are', '__CPROVER_return_value == 0 || g_j >= val_sz || val[g_j] == from[g_taglen + 1 + g_j]'),
     ('ensures', 'C06.fw.value_terminated', '__CPROVER_return_value == 0 ? val[0] == 0 : val[val_sz] == 0'),
-    ('ensures', 'C03.fw.consumes_at_most_input', '__CPROVER_return_value <= sz'),
+    ('ensures', 'C03.fw.consumes_at_most_input_plus_separator', '__CPROVER_return_value <= (unsigned long)sz + 1'),
 ]
 FW_LOOP = dict(
     assigns='ii, tag, __CPROVER_object_whole(tag0)',
